@@ -4,9 +4,15 @@
     (The component specifications carry their own size invariants: NackGen TypeOK, RtpBuffer window domain, ...)
 (T) long runs through the universal harness for every interceptor: equal-length phases of one workload (in-order, steady
     loss, duplicates; with and without feedback), live heap measured after forced GC at every phase boundary and after
-    Unbind + Close; Trace_Mem bounds the growth between successive phases and the residue after release."""
+    Unbind + Close; Trace_Mem bounds the growth between successive phases and the residue after release.
+(M/G/T) container-size conformance (checks/c12_sizes.py): Sizes.tla names, for every stateful container, its bound as a function
+    of configuration and bound streams and - where determined by the history - its exact size; MC_Sizes checks the history
+    machines against their bounds; Gen_Sizes enumerates component x configuration x stream pattern x workload x lifecycle action;
+    in-package probes execute them (and seeded long histories) on the real objects and log the real sizes; Trace_Sizes compares."""
+import json
 import random
 
+import c12_sizes
 import vlib
 
 META = {
@@ -15,11 +21,24 @@ META = {
             "eviction refuted as negative controls). On the code every interceptor is driven through four equal phases of each "
             "workload with the live heap (HeapAlloc and HeapObjects after two forced GCs) logged at the phase boundaries and after "
             "Unbind + Close; TLC requires phase-to-phase growth below a fixed slack independent of the phase length, and the "
-            "final heap to return to the pre-bind level.",
+            "final heap to return to the pre-bind level. In addition every stateful container (35 containers of 17 components in 14 "
+            "packages: NACK logs and counters, RTP ring, TWCC arrival ring, RFC 8888 logs, both feedback histories, report streams, "
+            "stats recorders and histories, jitter queue, pacer queues and writer maps, FEC batches, PLI streams, attribute cache) has "
+            "a named bound in Sizes.tla as a function of the configuration and the number of currently bound streams, and where the "
+            "content is a function of the history an exact size; in-package probes drive the real objects through TLC-enumerated "
+            "scripts (configuration x stream pattern x workload x lifecycle action) and seeded long histories (several wraps, largest "
+            "windows filled, SSRC floods, Unbind/re-Bind cycles) and log the real len/capacity of each container; TLC checks every "
+            "sample: size <= bound, exact equality, zero per-stream state after Unbind of everything.",
     "note": "An asymptotic claim sampled at finite length (quick 4x3k, thorough 4x60k packets per stream and workload; time-windowed "
-            "containers get phases longer than their 500 ms window). Memory is observed through the process heap only: a "
-            "leak smaller than the slack (192 KiB / 1500 objects per phase) is not seen. Slack was fitted on the unchanged tree.",
-    "technique": "TLA+ eviction model checked with TLC (negative controls); heap-phase traces of long runs of the Go code validated by TLC",
+            "containers get phases longer than their 500 ms window). The heap stage does not see a leak smaller than its slack "
+            "(192 KiB / 1500 objects per phase, fitted on the unchanged tree); the container-size stage sees single entries but only "
+            "in the containers it names (goroutine-local state such as the gcc rate calculator history and the pacing loop's slice is "
+            "seen through the heap or through accepted-minus-delivered counts only). History-exact sizes are compared in the "
+            "fully logged scripts (about 200 packets each), bounds and lifecycle-exact sizes also in the long runs (up to 80 k packets "
+            "quick, 640 k thorough). Pacer queues have no configured bound under overload and are held to conservation only.",
+    "technique": "TLA+ eviction and container-size models checked with TLC (negative controls); TLC-generated and seeded scripts executed "
+                 "on the Go code by in-package probes reading the real container sizes, traces validated by TLC; heap-phase traces of "
+                 "long runs validated by TLC",
     "design_ref": "DESIGN.md section 7 C12",
 }
 
@@ -129,11 +148,24 @@ def run(ctx):
     jobs = []
     for i in range(0, len(scripts), chunk):
         jobs.append(lambda child, part=scripts[i:i + chunk], tag="T-heap-%d" % (i // chunk): run_batch(child, part, tag))
+    # second stage, side by side with the heap runs: exact container sizes (Sizes.tla) - its verdict counts for C12 as well
+    extra = {}
+
+    def sizes_job(child):
+        try:
+            c12_sizes.run_sizes(child)
+        finally:
+            extra.update({k: child.cov[k] for k in ("size_samples", "size_scripts") if k in child.cov})
+            ctx.assumptions += child.assumptions
+    jobs.append(sizes_job)
     vlib.run_parallel(ctx, jobs, max_workers=4)
     ctx.assumptions += ["live heap after two forced GCs is the measure of retained memory", "slack 192 KiB / 1500 objects per phase"]
-    return vlib.finish(ctx, "exploration", RULE)
+    return vlib.finish(ctx, "exploration", RULE, extra_cov=extra)
 
 
 def replay(ctx, path):
-    run_batch(ctx, vlib.replay_scripts(path), "replay")
+    if str(json.load(open(path)).get("kind", "")).startswith("sizes"):       # a script of the container-size probes
+        c12_sizes.execute(ctx, vlib.replay_scripts(path), "replay")
+    else:
+        run_batch(ctx, vlib.replay_scripts(path), "replay")
     return vlib.finish(ctx, "exploration", RULE)
